@@ -1,3 +1,161 @@
 package main
 
-func thoroughExtras(c *Check) {}
+// Thorough tier: (a) whole-program load (dependencies and stdlib bodies) with a
+// VTA call graph used to cross-check the request-phase function set; (b) the
+// same rules under the GOARCH=386 file selection; (c) the rule-liveness audit
+// (seeded faults applied in memory). The audit tests the checker and never
+// decides the verdict.
+
+import (
+	"fmt"
+	"path/filepath"
+	"sort"
+	"sync"
+
+	"golang.org/x/tools/go/callgraph"
+	"golang.org/x/tools/go/callgraph/cha"
+	"golang.org/x/tools/go/callgraph/vta"
+	"golang.org/x/tools/go/ssa"
+	"golang.org/x/tools/go/ssa/ssautil"
+)
+
+func thoroughExtras(c *Check) {
+	p := c.P
+	if !p.Whole {
+		return
+	}
+	// (a) VTA cross-check of REQ
+	all := ssautil.AllFunctions(p.Prog)
+	cg := vta.CallGraph(all, cha.CallGraph(p.Prog))
+	c.Extra["vta_nodes"] = len(cg.Nodes)
+	root := p.Meth("flamego", "Flame", "ServeHTTP")
+	reach := map[*ssa.Function]bool{}
+	if root != nil && cg.Nodes[root] != nil {
+		var walk func(n *callgraph.Node)
+		walk = func(n *callgraph.Node) {
+			if n == nil || reach[n.Func] {
+				return
+			}
+			reach[n.Func] = true
+			for _, e := range n.Out {
+				walk(e.Callee)
+			}
+		}
+		walk(cg.Nodes[root])
+	}
+	req := p.REQ()
+	var missing []string
+	nmod := 0
+	for f := range reach {
+		if !p.inModule(f) || f.Synthetic != "" || len(f.Blocks) == 0 {
+			continue
+		}
+		nmod++
+		top := f
+		for top.Parent() != nil {
+			top = top.Parent()
+		}
+		if !req[f] && !req[top] {
+			missing = append(missing, p.FuncKey(f))
+		}
+	}
+	sort.Strings(missing)
+	c.Extra["vta_reachable_module_functions"] = nmod
+	c.Extra["vta_reachable_not_in_req"] = missing
+	usesREQ := map[string]bool{"C05": true, "C07": true, "C15": true}
+	if usesREQ[c.Property] {
+		c.Rule("T1", "call graph cross-check", "every module function that the whole-program VTA call graph reaches from Flame.ServeHTTP is in the request-phase set the rules analysed (the quick set is a CHA+bridges superset)", 1)
+		if len(missing) == 0 {
+			c.OK("REQ:superset-of-vta", "request phase", fmt.Sprintf("%d VTA-reachable module functions ⊆ REQ (%d)", nmod, len(req)), nmod)
+		} else {
+			c.Bad("REQ:superset-of-vta", "request phase", fmt.Sprintf("the request-phase set misses functions the VTA call graph reaches: %v", missing))
+		}
+	}
+}
+
+// thoroughArch re-runs the property's rules under GOARCH=386 file selection.
+func thoroughArch(c *Check, f propFunc, repo string, ov map[string][]byte) {
+	p2, err := LoadRepo(repo, false, "386", ov)
+	if err != nil {
+		c.Rule("T2", "GOARCH=386", "the rules hold for the 386 file selection", 1)
+		c.Bad("GOARCH=386:load", "?", "cannot load the module for GOARCH=386: "+err.Error())
+		return
+	}
+	c2 := NewCheck(p2, c.Property, "thorough-386", c.Seed)
+	func() {
+		defer func() {
+			if r := recover(); r != nil {
+				c2.curRule = c.Property + ".internal"
+				c2.Bad("checker-panic", "?", fmt.Sprint(r))
+			}
+		}()
+		f(c2)
+	}()
+	nv := 0
+	c.Rule("T2", "GOARCH=386", "the same rules hold for the GOARCH=386 file selection (build-tagged files)", 1)
+	for _, o := range c2.Obs {
+		if o.Status == "violated" {
+			nv++
+			c.Bad(o.Construct+" [GOARCH=386 "+o.Rule+"]", o.Pos, o.How)
+		}
+	}
+	c.Extra["goarch_386_obligations"] = len(c2.Obs)
+	if nv == 0 {
+		c.OK("GOARCH=386:all-rules", "module", fmt.Sprintf("%d obligations discharged under GOARCH=386", len(c2.Obs)), len(c2.Obs))
+	}
+}
+
+// thoroughAudit runs the seeded faults of this property and records the outcome.
+func thoroughAudit(c *Check, repo, verif string) {
+	seeds, err := parseSeeds(filepath.Join(verif, "seeds", "seeds.txt"))
+	if err != nil {
+		c.Extra["audit_error"] = err.Error()
+		return
+	}
+	var sel []*Seed
+	for _, s := range seeds {
+		if s.Property == c.Property {
+			sel = append(sel, s)
+		}
+	}
+	// VERIF_SEED only permutes the order
+	if c.Seed != 0 && len(sel) > 1 {
+		k := int(c.Seed % int64(len(sel)))
+		if k < 0 {
+			k = -k
+		}
+		sel = append(sel[k:], sel[:k]...)
+	}
+	results := make([]auditResult, len(sel))
+	var wg sync.WaitGroup
+	sem := make(chan struct{}, 12)
+	for i, s := range sel {
+		wg.Add(1)
+		go func(i int, s *Seed) {
+			defer wg.Done()
+			sem <- struct{}{}
+			defer func() { <-sem }()
+			results[i] = runSeed(repo, s)
+		}(i, s)
+	}
+	wg.Wait()
+	counts := map[string]int{}
+	var warn []string
+	for _, r := range results {
+		counts[r.status]++
+		switch r.status {
+		case "killed", "quiet", "skipped":
+		default:
+			w := fmt.Sprintf("AUDIT-WARNING %s rule-liveness seed=%s expect=%v fired=%v", r.status, r.seed.ID, r.seed.Expect, r.fired)
+			fmt.Println(w)
+			warn = append(warn, w)
+		}
+	}
+	c.Extra["audit_seeds"] = len(sel)
+	c.Extra["audit_killed"] = counts["killed"]
+	c.Extra["audit_quiet_benign"] = counts["quiet"]
+	c.Extra["audit_skipped"] = counts["skipped"]
+	c.Extra["audit_failed"] = counts["survived"] + counts["false-alarm"] + counts["broken"]
+	c.Extra["audit_warnings"] = warn
+	c.Extra["audit_note"] = "seeded faults (and benign refactorings, which must stay quiet) are applied in memory through packages.Config.Overlay; the audit tests the checker and never decides the verdict"
+}
